@@ -72,6 +72,9 @@ var epoch = time.Date(2026, 3, 1, 0, 0, 0, 0, time.UTC)
 func TestC17_RollingCounter(t *testing.T) {
 	rapid.Check(t, func(t *rapid.T) {
 		n := rapid.IntRange(1, 20).Draw(t, "buckets")
+		if rapid.IntRange(0, 5).Draw(t, "manyBuckets") == 0 {
+			n = rapid.SampledFrom([]int{63, 64, 65, 100, 128, 200}).Draw(t, "bucketsBig")
+		}
 		r := genResolution(t)
 		phase := time.Duration(rapid.Int64Range(0, int64(200*time.Second)).Draw(t, "phase"))
 		clock.Freeze(epoch.Add(phase))
@@ -81,6 +84,11 @@ func TestC17_RollingCounter(t *testing.T) {
 			t.Fatalf("NewCounter(%d,%v) refused a valid configuration: %v", n, r, err)
 		}
 		nops := rapid.IntRange(1, 60).Draw(t, "nops")
+		type snapshot struct {
+			c   *memmetrics.RollingCounter
+			evs []ev
+		}
+		var snaps []snapshot
 		var evs []ev
 		var now time.Duration
 		var log []string
@@ -88,7 +96,7 @@ func TestC17_RollingCounter(t *testing.T) {
 		readsDiffer, bigGap := false, false
 		lastInc := time.Duration(-1)
 		for i := 0; i < nops; i++ {
-			switch rapid.IntRange(0, 5).Draw(t, "op") {
+			switch rapid.IntRange(0, 8).Draw(t, "op") {
 			case 0, 1:
 				v := rapid.IntRange(1, 5).Draw(t, "v")
 				c.Inc(v)
@@ -108,6 +116,19 @@ func TestC17_RollingCounter(t *testing.T) {
 				log = append(log, fmt.Sprintf("count=%d[%d,%d]", got, lo, hi))
 				if got < lo || got > hi {
 					t.Fatalf("N=%d r=%v phase=%v at +%v: Count()=%d outside [%d,%d] (sum of increments younger than (N-1)r / Nr)\nhistory: %s\nincrements: %v", n, r, phase, now, got, lo, hi, strings.Join(log, " "), evs)
+				}
+			case 6: // take a snapshot; it is read later and must neither change nor disturb the live counter
+				snaps = append(snaps, snapshot{c.Clone(), append([]ev(nil), evs...)})
+				log = append(log, "clone")
+			case 7:
+				if len(snaps) > 0 {
+					sn := snaps[rapid.IntRange(0, len(snaps)-1).Draw(t, "whichSnap")]
+					got := sn.c.Count()
+					lo, hi := bounds(sn.evs, now, n, r)
+					log = append(log, fmt.Sprintf("snapshot-count=%d[%d,%d]", got, lo, hi))
+					if got < lo || got > hi {
+						t.Fatalf("N=%d r=%v: a snapshot taken earlier reports %d, outside [%d,%d] of the increments it was taken with\nhistory: %s", n, r, got, lo, hi, strings.Join(log, " "))
+					}
 				}
 			default:
 				d := genStep(t, n, r)
